@@ -10,7 +10,7 @@ ID, M, PROPS = sys.argv[1], sys.argv[2], sys.argv[3].split(",")
 skip_confirm = "--skip-confirm" in sys.argv
 SRC = f"/tmp/seed/{ID}/seeded_out/{M}"
 DST = f"/verif/seeded/{ID}-{M}"
-EV = "/tmp/seedeval"
+EV = os.environ.get("SEEDEVAL_DIR", "/tmp/seedeval")
 REPO, VERIF = f"{EV}/repo", f"{EV}/verif"
 env = dict(os.environ, GOFLAGS="-mod=mod", GOPROXY="off")
 
